@@ -45,8 +45,8 @@ func TestVerifC17SM2(t *testing.T) {
 	}
 	var keys []*shared
 	for i := 0; i < 4; i++ {
-		d := randScalar(rng)
-		P := refPub(d)
+		d := zvRandScalar(rng)
+		P := zvRefPub(d)
 		sh := &shared{priv: protect(ref.B32(d)), px: protect(ref.B32(P.X)), py: protect(ref.B32(P.Y)), e: protect(rng.Bytes(32)),
 			id: protect([]byte("1234567812345678")), msg: protect(rng.Bytes(100)), stream: rng.Bytes(32 * 6)}
 		m := ref.SM2Sign(d, sh.e.B, sh.stream)
@@ -71,7 +71,7 @@ func TestVerifC17SM2(t *testing.T) {
 	var rares []*rare
 	for i := 0; i < 12; i++ {
 		d := ref.Int(keys[i%len(keys)].priv.B)
-		k1 := randScalar(rng)
+		k1 := zvRandScalar(rng)
 		x1 := ref.BaseMulFast(k1).X
 		e := rng.Bytes(32)
 		first := ref.B32(k1)
@@ -80,18 +80,18 @@ func TestVerifC17SM2(t *testing.T) {
 		case 0:
 			e, what = ref.B32(ref.ModN(new(big.Int).Neg(x1))), "late-rejection:r=0"
 		case 1:
-			e, what = ref.B32(ref.ModN(new(big.Int).Sub(new(big.Int).Sub(nI, k1), x1))), "late-rejection:r+k=n"
+			e, what = ref.B32(ref.ModN(new(big.Int).Sub(new(big.Int).Sub(zvNI, k1), x1))), "late-rejection:r+k=n"
 		case 2:
 			rT := ref.ModN(new(big.Int).Mul(k1, ref.InvN(d)))
 			e, what = ref.B32(ref.ModN(new(big.Int).Sub(rT, x1))), "late-rejection:s=0"
 		case 3:
 			first, what = make([]byte, 32), "early-rejection:k=0"
 		case 4:
-			first, what = ref.B32(nI), "early-rejection:k=n"
+			first, what = ref.B32(zvNI), "early-rejection:k=n"
 		default:
 			what = "source-fails-in-redraw"
 		}
-		stream := append(append([]byte{}, first...), ref.B32(randScalar(rng))...)
+		stream := append(append([]byte{}, first...), ref.B32(zvRandScalar(rng))...)
 		rc := &rare{priv: ref.B32(d), e: e, stream: stream, what: what}
 		if i%6 == 5 {
 			rc.e = ref.B32(ref.ModN(new(big.Int).Neg(x1))) // r = 0, then the source ends after 40 bytes
@@ -107,7 +107,7 @@ func TestVerifC17SM2(t *testing.T) {
 		rares = append(rares, rc)
 	}
 	runRare := func(rc *rare) string {
-		rr, ss, err := SignHashed(newScript(rc.stream), rc.priv, rc.e)
+		rr, ss, err := SignHashed(zvNewScript(rc.stream), rc.priv, rc.e)
 		if rc.wantR == nil {
 			if err == nil || rr != nil || ss != nil {
 				return "rare-path:" + rc.what + ":no-error"
@@ -123,7 +123,7 @@ func TestVerifC17SM2(t *testing.T) {
 		if bad := runRare(rc); bad != "" {
 			r.Violation("serial-result-wrong:"+bad, hk.D{"priv": hk.Hex(rc.priv), "e": hk.Hex(rc.e), "stream": hk.Hex(rc.stream)})
 		}
-		SignHashed(newScript(rc.stream), make([]byte, 32), rc.e) // invalid key: error path
+		SignHashed(zvNewScript(rc.stream), make([]byte, 32), rc.e) // invalid key: error path
 	}
 	// INDEPENDENT HASH VALUES, a phase of their own: nothing but sm3 runs inside the goroutines (messages and expected
 	// digests are prepared beforehand), so that no synchronisation inside the model or the standard library (math/big and
@@ -197,7 +197,7 @@ func TestVerifC17SM2(t *testing.T) {
 					p, msg, isFault, _ := hk.Try(func() {
 						switch kind {
 						case 0:
-							rr, ss, err := SignHashed(newScript(sh.stream), sh.priv.B, sh.e.B)
+							rr, ss, err := SignHashed(zvNewScript(sh.stream), sh.priv.B, sh.e.B)
 							if err != nil || !bytes.Equal(rr, sh.wantR) || !bytes.Equal(ss, sh.wantS) {
 								bad = "SignHashed"
 							}
@@ -212,12 +212,12 @@ func TestVerifC17SM2(t *testing.T) {
 								bad = "DerivePublic"
 							}
 						case 3:
-							priv, x, y, err := GenerateKey(newScript(append(append([]byte{}, sh.priv.B...), 0)))
+							priv, x, y, err := GenerateKey(zvNewScript(append(append([]byte{}, sh.priv.B...), 0)))
 							if err != nil || !bytes.Equal(priv, sh.priv.B) || !bytes.Equal(x, sh.px.B) || !bytes.Equal(y, sh.py.B) {
 								bad = "GenerateKey"
 							}
 						case 4:
-							rr, ss, err := Sign(sh.id.B, sh.px.B, sh.py.B, newScript(sh.stream), sh.priv.B, sh.msg.B)
+							rr, ss, err := Sign(sh.id.B, sh.px.B, sh.py.B, zvNewScript(sh.stream), sh.priv.B, sh.msg.B)
 							if err != nil || !bytes.Equal(rr, sh.rID) || !bytes.Equal(ss, sh.sID) {
 								bad = "Sign"
 							}
@@ -237,11 +237,11 @@ func TestVerifC17SM2(t *testing.T) {
 						case 6:
 							// crafted, invalid signatures with (r+s) mod n tiny or s tiny: must stay rejected and
 							// must not disturb anybody else
-							tv := bi(int64(1 + lr.Intn(9000)))
+							tv := zvBi(int64(1 + lr.Intn(9000)))
 							sv := new(big.Int).SetBytes(lr.Bytes(32))
 							sv.Mod(sv, ref.SM2N)
 							if lr.Intn(2) == 0 {
-								sv = new(big.Int).Lsh(bi(1), uint(5+lr.Intn(240)))
+								sv = new(big.Int).Lsh(zvBi(1), uint(5+lr.Intn(240)))
 							}
 							rr := ref.ModN(new(big.Int).Sub(tv, sv))
 							if rr.Sign() != 0 && sv.Sign() != 0 {
@@ -265,7 +265,7 @@ func TestVerifC17SM2(t *testing.T) {
 							msg := sh.msg.B[:10+lr.Intn(60)]
 							eza := ref.SM2E(za, msg)
 							m := ref.SM2Sign(ref.Int(sh.priv.B), eza, sh.stream)
-							rr, ss, err := SignZa(newScript(sh.stream), sh.priv.B, za, msg)
+							rr, ss, err := SignZa(zvNewScript(sh.stream), sh.priv.B, za, msg)
 							if err != nil || m.R == nil || !bytes.Equal(rr, ref.B32(m.R)) || !bytes.Equal(ss, ref.B32(m.S)) {
 								bad = "SignZa(shared-za-with-spare-capacity)"
 							} else if ok, _ := VerifyZa(sh.px.B, sh.py.B, za, msg, rr, ss); !ok {
@@ -319,7 +319,7 @@ func TestVerifC17SM2(t *testing.T) {
 	}
 	for _, sh := range keys {
 		d := ref.Int(sh.priv.B)
-		P := refPub(d)
+		P := zvRefPub(d)
 		if !bytes.Equal(sh.px.B, ref.B32(P.X)) || !bytes.Equal(sh.r.B, sh.wantR) {
 			r.Violation("shared-key-material-changed", hk.D{})
 		}
